@@ -19,6 +19,9 @@ TEXT = {
     "C03": dict(technique="property-based testing (rapid): differential - public find calls vs verif-only naive scan of the same compiled program",
                 text="Generated-input search over F-accel templates (one per candidate-search mode) and corpus patterns x options x code-gen/bitmap x near-miss inputs x every start offset: FindRunesMatchStartingAt, FindStringMatchStartingAt and FindNextMatch must equal the naive scan (no candidate finder, no prefix filter, no length cut-off). Every find mode has a measured floor.",
                 note="The naive scan shares the interpreter with the engine (isolates acceleration only). Trusts the hook in verif_hooks.go.", ref="§6 C03"),
+    "C05": dict(technique="property-based testing (rapid): differential - program compiled with tree rewrites on vs gated off, both under the naive scan",
+                text="Generated-input search over rewrite-shaped ASTs and corpus patterns x options x pattern-directed inputs x every offset: naive scan with rewrites on == naive scan with rewrites off == public find. Non-trivial cases are those where the two programs differ and the un-rewritten one matches.",
+                note="Trusts the rewrite gates (verif tag) to switch off exactly the listed passes; the rest of the reducer runs in both variants.", ref="§6 C05"),
 }
 
 PENDING = "check not built yet in this session (work in progress; see DESIGN.md section 6 for the planned generated-input check)"
